@@ -23,6 +23,7 @@ func init() {
 		&Rule{ID: "WR-ENUM", Doc: "wire converters (operators, term kinds, policy kinds) are total, mutually inverse and name-consistent", Run: ruleWREnum, Min: 50},
 		&Rule{ID: "WR-SYMS", Doc: "default symbol table, offset 1024 and per-block symbol split points are the specified ones", Run: ruleWRSyms, Min: 8},
 		&Rule{ID: "WR-FIELDS", Doc: "every converter reads every field of its source structure and sets every field of its result", Run: ruleWRFields, Min: 20},
+		&Rule{ID: "WR-SYMTAB", Doc: "the token-wide symbol table is a fresh clone extended with the symbols of exactly the blocks the token holds, in block order; new blocks must be disjoint from it", Run: ruleWRSymtab, Min: 8},
 		&Rule{ID: "WR-ELEMWISE", Doc: "element-wise conversion loops produce exactly one output element per input element", Run: ruleWRElemwise, Min: 10},
 		&Rule{ID: "WR-VERSION", Doc: "blocks outside the supported schema version are rejected; encoders write the supported version", Run: ruleWRVersion, Min: 4},
 	)
@@ -954,4 +955,118 @@ func tightestUpperBound(p *Prog, blk *ssa.BasicBlock, ia *ssa.IndexAddr) (bool, 
 		return false, "the last valid index of the table is rejected by the bound test (off-by-one)"
 	}
 	return false, "no exact upper bound 'index < length' found (see PN-INDEX for the safety half)"
+}
+
+func ruleWRSymtab(p *Prog, r *Reporter) {
+	globalP = p
+	for _, fn := range p.funcsIn("biscuit") {
+		for _, lit := range allocsOf(fn, "biscuit", "Biscuit") {
+			name := p.FuncName(fn)
+			pos := p.instrPos(lit)
+			f := litFields(lit)
+			S, _ := f["symbols"].(*ssa.Call)
+			if S == nil || S.Call.StaticCallee() == nil || S.Call.StaticCallee().Name() != "Clone" {
+				r.Bad(pos, name, "token symbols", "the token's symbol table is "+shortD(f["symbols"])+", not a fresh Clone(): it is shared with another holder")
+				continue
+			}
+			r.OK(pos, name, "token symbols", "fresh clone of "+shortD(S.Call.Args[0]))
+			extendCalls := func() []*ssa.Call {
+				var out []*ssa.Call
+				for _, c := range callsIn(fn) {
+					if cv, ok := c.(*ssa.Call); ok && isCallTo(&cv.Call, "datalog.SymbolTable.Extend") && cv.Call.Args[0] == ssa.Value(S) {
+						out = append(out, cv)
+					}
+				}
+				return out
+			}()
+			var success *ssa.Return
+			for _, ret := range returnsOf(fn) {
+				if retVal(ret, 0) == ssa.Value(lit) {
+					success = ret
+				}
+			}
+			if success == nil {
+				r.Dunno(pos, name, "token symbols", "the literal is not returned directly")
+				continue
+			}
+			extendedWith := func(blockD string) *ssa.Call {
+				for _, e := range extendCalls {
+					if p.D(e.Call.Args[1]) == blockD+".symbols" && (e.Block() == success.Block() || e.Block().Dominates(success.Block())) {
+						return e
+					}
+				}
+				return nil
+			}
+			// a *Block parameter: the block being added (authority in newBiscuit, new block in Append)
+			var blockParam *ssa.Parameter
+			for _, pa := range fn.Params {
+				if isRepoNamed(pa.Type(), "biscuit", "Block") {
+					blockParam = pa
+				}
+			}
+			decoding := false
+			for _, a := range allocsOf(fn, "pb", "Biscuit") {
+				if passedTo(a, "google.golang.org/protobuf/proto.Unmarshal") {
+					decoding = true
+				}
+			}
+			switch {
+			case blockParam != nil:
+				r.Check(extendedWith(blockParam.Name()) != nil, pos, name, "extend with new block", "the new block's symbols are added to the token's table before the token is returned", "the symbols declared by the added block are not added to the token's symbol table: later blocks and printing resolve its symbols wrongly")
+				// disjointness test against the table the token extends
+				ok := false
+				for _, g := range guardsOf(success.Block()) {
+					if c, isC := g.cond.(*ssa.Call); isC && g.val && isCallTo(&c.Call, "datalog.SymbolTable.IsDisjoint") && p.D(c.Call.Args[1]) == blockParam.Name()+".symbols" {
+						d0 := p.D(c.Call.Args[0])
+						if c.Call.Args[0] == ssa.Value(S) || d0 == p.D(S.Call.Args[0]) {
+							ok = true
+						}
+					}
+				}
+				r.Check(ok, pos, name, "disjoint symbols", "a block that re-declares a symbol already in the token's table is refused", "a block whose symbol table overlaps the token's table is accepted: per-block tables no longer hold 'new symbols only'")
+			case decoding:
+				// authority first, then every block in order
+				var auth *ssa.Call
+				for _, e := range extendCalls {
+					if strings.HasSuffix(p.D(e.Call.Args[1]), ".symbols") && p.D(e.Call.Args[1]) == p.D(f["authority"])+".symbols" {
+						auth = e
+					}
+				}
+				var rl *rangeLoop
+				for _, l := range rangeLoops(fn) {
+					if strings.HasSuffix(p.D(l.seq), ".Blocks") {
+						rl = l
+					}
+				}
+				okOrder := auth != nil && rl != nil && (auth.Block().Dominates(rl.header))
+				r.Check(okOrder, pos, name, "authority symbols first", "the authority block's symbols extend the table before any later block", "the authority block's symbols are not added before the later blocks' (symbol indexes shift)")
+				okEach := false
+				if rl != nil {
+					for _, e := range extendCalls {
+						if !rl.body[e.Block()] {
+							continue
+						}
+						all := true
+						for _, latch := range rl.latches {
+							if reachAvoiding(rl.bodyBB, latch, blockSet{e.Block(): true}) {
+								all = false
+							}
+						}
+						// the extended table must be the decoded block of this iteration
+						fromIter := dependsOn(e.Call.Args[1], func(x ssa.Value) bool { return rl.isElem(x) }) || dependsOn(e.Call.Args[1], func(x ssa.Value) bool {
+							ia, ok := x.(*ssa.IndexAddr)
+							return ok && ia.Index == ssa.Value(rl.incr)
+						})
+						if all && fromIter {
+							okEach = true
+						}
+					}
+				}
+				r.Check(okEach, pos, name, "every block's symbols", "each decoded block's symbols extend the table on every continuing iteration, in block order", "some decoded block's symbols are not added to the cumulative table")
+			default:
+				// Seal: nothing added
+				r.Check(len(extendCalls) == 0, pos, name, "no new symbols", "sealing adds no symbols", "sealing extends the symbol table")
+			}
+		}
+	}
 }
